@@ -27,7 +27,7 @@ def _tolerated():
 def plan(tier, seed):
     quick = tier == "quick"
     nshards = 16
-    cases = 250 if quick else 6000           # quick 4000 sequences (DESIGN: 2000); thorough 9.6e4 (DESIGN 2e5 would take ~45 min: 0.11 s/sequence)
+    cases = 500 if quick else 6000           # quick 4000 sequences (DESIGN: 2000); thorough 9.6e4 (DESIGN 2e5 would take ~45 min: 0.11 s/sequence)
     big = 3 if quick else 40                 # import-dominated books: quick <= ~400 nodes, thorough <= ~3000
     total = nshards * cases
     args = ["--cases", cases, "--big", big, "--ops", 60, "--import", 30,
